@@ -41,9 +41,9 @@ SETTERS = RATES + list(ALIAS)
 def bounds(tier):
     if tier == "quick":
         return {"max_pos": 2, "max_neg": 2, "easy": [[0, 0], [1, 2]], "shapes": [list(s) for s in SHAPES],
-                "layouts": ["C", "F", "T", "strided"], "history_objects": 7}
+                "layouts": ["C", "F", "T", "strided"], "history_objects": 8}
     return {"max_pos": 3, "max_neg": 3, "easy": [[0, 0], [1, 2], [3, 0]], "shapes": [list(s) for s in SHAPES] + [[4, 1, 2]],
-            "layouts": ["C", "F", "T", "strided"], "history_objects": 7}
+            "layouts": ["C", "F", "T", "strided"], "history_objects": 8}
 
 
 def work(tier, seed):
@@ -284,6 +284,8 @@ def _objects():
         ("fraudscores", lambda: FraudScores(genuines=[0.9, 0.5, 0.5], frauds=[0.1, 0.5, 0.7], nb_easy_genuines=2), opgraph.snapshot_scores),
         ("confusion-matrix-stacked", lambda: ConfusionMatrix(matrix=np.array([[[2, 1], [0, 3]], [[0, 0], [4, 1]], [[5, 5], [5, 5]]]),
                                                              binary=True), opgraph.snapshot_cm),
+        ("confusion-matrix-float-binary", lambda: ConfusionMatrix(matrix=np.array([[[2.0, 1.0], [0.5, 3.0]], [[0.25, 0.5], [4.0, 1.0]]]),
+                                                                  binary=True), opgraph.snapshot_cm),
         ("confusion-matrix-multiclass", lambda: ConfusionMatrix(matrix=np.array([[2.0, 1.0, 0.0], [0.5, 3.0, 1.0], [0.0, 0.0, 4.0]]),
                                                                 classes=["x", "y", "z"]), opgraph.snapshot_cm),
     ]
@@ -345,7 +347,9 @@ def _scores_events(probe):
         ev += [(f"getitem[{g_}]", lambda o, e, g_=g_: o[g_]) for g_ in list(probe.groups)]
         ev += [("group_cm", lambda o, e: o.group_cm(e["T"])), ("group_fnr", lambda o, e: o.group_fnr(e["T2"])),
                ("group_far(scalar)", lambda o, e: o.group_far(e["t"])),
-               ("groupwise-auc", lambda o, e: groupwise("topr")(o, threshold=e["T"]))]
+               ("groupwise-auc", lambda o, e: groupwise("topr")(o, threshold=e["T"])),
+               ("swap.group_cm", lambda o, e: o.swap().group_cm(e["T"])),
+               ("swap[last]", lambda o, e: o.swap()[list(o.groups)[-1]])]
     if hasattr(probe, "genuines"):
         ev += [("genuines", lambda o, e: o.genuines), ("frauds", lambda o, e: o.frauds)]
     return ev
